@@ -123,24 +123,48 @@ def cases(draw, tier):
             steps.append({'op': 'sleep', 'd': 0.25})
             steps.append({'op': 'await', 'e': exprs[draw(st.integers(0, len(exprs) - 1))]})
         waiters.append({'name': 'w%d' % j, 'steps': steps})
-    ctl = []
-    for t in sorted(draw(st.lists(st.integers(0, 20).map(lambda x: x / 4), min_size=1, max_size=6 if big else 5, unique=True))):
-        ctl.append({'op': 'at_eq', 't': t})
-        for _ in range(draw(st.integers(1, 4))):
-            r = draw(st.integers(0, 9))
-            if r < 2:
-                ctl.append({'op': 'instant'})          # next round of this time step
-            elif r < 6:
-                ctl.append({'op': 'set_flag', 'i': draw(st.integers(0, nflags - 1)), 'v': draw(st.booleans())})
-            elif r < 8:
-                ctl.append({'op': 'tset', 'i': draw(st.integers(0, ntr - 1)), 'v': draw(st.integers(0, 3))})
-            elif r < 9:
-                ctl.append({'op': 'increase', 'r': 'R', 'amounts': {'a': draw(st.integers(0, 2))}})
-            else:
-                ctl.append({'op': 'decrease', 'r': 'R', 'amounts': {'a': draw(st.integers(0, 2))}})
-            ctl.append({'op': 'bools', 'exprs': exprs})
+    def controller(times):
+        ctl = []
+        for t in times:
+            ctl.append({'op': 'at_eq', 't': t})
+            for _ in range(draw(st.integers(1, 4))):
+                r = draw(st.integers(0, 9))
+                if r < 2:
+                    ctl.append({'op': 'instant'})          # next round of this time step
+                elif r < 6:
+                    ctl.append({'op': 'set_flag', 'i': draw(st.integers(0, nflags - 1)), 'v': draw(st.booleans())})
+                elif r < 8:
+                    ctl.append({'op': 'tset', 'i': draw(st.integers(0, ntr - 1)), 'v': draw(st.integers(0, 3))})
+                elif r < 9:
+                    ctl.append({'op': 'increase', 'r': 'R', 'amounts': {'a': draw(st.integers(0, 2))}})
+                else:
+                    ctl.append({'op': 'decrease', 'r': 'R', 'amounts': {'a': draw(st.integers(0, 2))}})
+                ctl.append({'op': 'bools', 'exprs': exprs})
+        return ctl
+    times = sorted(draw(st.lists(st.integers(0, 20).map(lambda x: x / 4), min_size=1, max_size=6 if big else 5, unique=True)))
+    ctl = controller(times)
+    # a second driver acting in the same time steps: a value may be reverted between the trigger and the
+    # waiter's turn (the oracle needs no order assumption: the state is rebuilt from the log)
+    ctl2 = controller([t for t in times if draw(st.booleans())])
+    if draw(st.integers(0, 3)) == 0:
+        # revert race: a value is made true and reverted again before the woken waiter gets its turn
+        # (two drivers wake in the same round; the waiter's wake-up is queued behind the second one)
+        T = (times[-1] if times else 0) + 1
+        i = draw(st.integers(0, nflags - 1))
+        kind = draw(st.sampled_from(['flag', 'notflag', 'tcmp']))
+        if kind == 'flag':
+            e, pre, mk, rv = ['flag', i], {'op': 'set_flag', 'i': i, 'v': False}, {'op': 'set_flag', 'i': i, 'v': True}, {'op': 'set_flag', 'i': i, 'v': False}
+        elif kind == 'notflag':
+            e, pre, mk, rv = ['not', ['flag', i]], {'op': 'set_flag', 'i': i, 'v': True}, {'op': 'set_flag', 'i': i, 'v': False}, {'op': 'set_flag', 'i': i, 'v': True}
+        else:
+            e, pre, mk, rv = ['tcmp', 0, '>=', 3], {'op': 'tset', 'i': 0, 'v': 0}, {'op': 'tset', 'i': 0, 'v': 3}, {'op': 'tset', 'i': 0, 'v': 1}
+        if draw(st.booleans()):
+            e = ['and', e, ['instant']] if draw(st.booleans()) else ['or', e, ['eternity']]
+        ctl += [{'op': 'at_eq', 't': T - 0.5}, pre, {'op': 'at_eq', 't': T}, rv, {'op': 'bools', 'exprs': exprs}]
+        ctl2 += [{'op': 'at_eq', 't': T}, mk]
+        waiters.append({'name': 'wr', 'steps': [{'op': 'at_eq', 't': T - 0.25}, {'op': 'await', 'e': e}]})
     hd = {'name': 'hd', 'steps': [{'op': 'sleep', 'd': draw(st.sampled_from([0.125, 0.625, 1.375, 2.125]))}]}
-    blk = {'op': 'scope', 'name': 'S', 'children': [hd] + waiters + [{'name': 'ctl', 'steps': ctl}], 'body': []}
+    blk = {'op': 'scope', 'name': 'S', 'children': [hd] + [{'name': 'ctl2', 'steps': ctl2}] + waiters + [{'name': 'ctl', 'steps': ctl}], 'body': []}
     prog = {'start': 0, 'objs': {'flags': nflags, 'tracked': [draw(st.integers(0, 3)) for _ in range(ntr)],
                                  'resources': [{'kind': 'res', 'name': 'R', 'levels': {'a': draw(st.integers(0, 3))}}]},
             'roots': [{'name': 'r0', 'steps': [blk]}]}
